@@ -1,85 +1,75 @@
 import PwVerif.Model.Cache
 namespace PwVerif.Cache
 
-/-- the twins agree on everything visible, and a cached input vouches for the outputs -/
-structure Sim (bad : Nat → Bool) (a b : N) : Prop where
+/-! ## proposed discipline (`Cfg.proposed`): every history over the full alphabet -/
+
+/-- the twins agree on everything visible and on the job queue; a cached input vouches for the outputs
+(no condition on the flags: the cache is only ever written when a result has been processed) -/
+structure Sim (beh : Nat → Outcome) (a b : N) : Prop where
   inp : a.inp = b.inp
   out : a.out = b.out
   running : a.running = b.running
   failed : a.failed = b.failed
-  job : a.job = b.job
-  jobRun : a.running = true ↔ a.job.isSome = true
-  valid : ∀ c, a.cached = some c →
-    (a.running = true ∧ a.failed = false ∧ c ≠ 0 ∧ a.job = some c) ∨
-    (a.running = false ∧ a.failed = false ∧ a.out = some c ∧ c ≠ 0 ∧ bad c = false)
+  jobs : a.jobs = b.jobs
+  jobsNZ : ∀ v ∈ a.jobs, v ≠ 0
+  valid : ∀ c, a.cached = some c → a.out = some c ∧ c ≠ 0 ∧ beh c = .ok
 
 /-- the cached twin would answer from the cache now -/
 def N.hits (n : N) : Bool := n.cached == some n.inp && (!n.running && n.ready)
 
-theorem runLike_sim (bad : Nat → Bool) (a b : N) (e : Bool) (h : Sim bad a b)
+theorem runLike_sim (beh : Nat → Outcome) (a b : N) (e : Bool) (h : Sim beh a b)
     (hmiss : e = true → a.hits = false) :
-    Sim bad (runLike Cfg.repaired bad true a e).1 (runLike Cfg.repaired bad false b e).1 ∧
-    (runLike Cfg.repaired bad true a e).2 = (runLike Cfg.repaired bad false b e).2 := by
-  obtain ⟨hi, ho, hr, hf, hj, hjr, hv⟩ := h
+    Sim beh (runLike Cfg.proposed beh true a e).1 (runLike Cfg.proposed beh false b e).1 ∧
+    (runLike Cfg.proposed beh true a e).2 = (runLike Cfg.proposed beh false b e).2 := by
+  obtain ⟨hi, ho, hr, hf, hj, hnz, hv⟩ := h
   obtain ⟨ai, ao, ar, af, ac, aj⟩ := a
   obtain ⟨bi, bo, br, bf, bc, bj⟩ := b
-  simp only at hi ho hr hf hj hjr hv
+  simp only at hi ho hr hf hj hnz hv
   subst hi ho hr hf hj
   simp only [N.hits, N.ready] at hmiss
-  by_cases hz : ai = 0 <;> cases ar <;> cases af <;> cases e <;> cases hb : bad ai <;> cases ac <;>
-    simp_all [runLike, Cfg.repaired, N.ready] <;>
+  by_cases hz : ai = 0 <;> cases ar <;> cases af <;> cases e <;> cases hb : beh ai <;> cases ac <;>
+    simp_all [runLike, Cfg.proposed, N.ready, N.succeed, N.fail] <;>
     (try split) <;>
     (try (first | refine ⟨⟨?_, ?_, ?_, ?_, ?_, ?_, ?_⟩, ?_⟩ | refine ⟨?_, ?_, ?_, ?_, ?_, ?_, ?_⟩)) <;>
     (try simp_all) <;> (try grind)
 
-theorem step_sim (bad : Nat → Bool) (a b : N) (op : Op) (h : Sim bad a b)
+theorem step_sim (beh : Nat → Outcome) (a b : N) (op : Op) (h : Sim beh a b)
     (hmiss : op = .submit → a.hits = false) :
-    Sim bad (step Cfg.repaired bad true a op).1 (step Cfg.repaired bad false b op).1 ∧
-    (step Cfg.repaired bad true a op).2 = (step Cfg.repaired bad false b op).2 := by
+    Sim beh (step Cfg.proposed beh true a op).1 (step Cfg.proposed beh false b op).1 ∧
+    (step Cfg.proposed beh true a op).2 = (step Cfg.proposed beh false b op).2 := by
   cases op with
-  | run => exact runLike_sim bad a b false h (by simp)
-  | submit => exact runLike_sim bad a b true h (fun _ => hmiss rfl)
-  | set v =>
-    obtain ⟨hi, ho, hr, hf, hj, hjr, hv⟩ := h
+  | run => exact runLike_sim beh a b false h (by simp)
+  | submit => exact runLike_sim beh a b true h (fun _ => hmiss rfl)
+  | _ =>
+    obtain ⟨hi, ho, hr, hf, hj, hnz, hv⟩ := h
     obtain ⟨ai, ao, ar, af, ac, aj⟩ := a
     obtain ⟨bi, bo, br, bf, bc, bj⟩ := b
-    simp only at hi ho hr hf hj hjr hv
+    simp only at hi ho hr hf hj hnz hv
     subst hi ho hr hf hj
-    cases ar <;> simp_all [step] <;> (try (refine ⟨?_, ?_, ?_, ?_, ?_, ?_, ?_⟩)) <;> (try simp_all)
-  | clearFailed =>
-    obtain ⟨hi, ho, hr, hf, hj, hjr, hv⟩ := h
-    obtain ⟨ai, ao, ar, af, ac, aj⟩ := a
-    obtain ⟨bi, bo, br, bf, bc, bj⟩ := b
-    simp only at hi ho hr hf hj hjr hv
-    subst hi ho hr hf hj
-    simp_all [step]
-    refine ⟨?_, ?_, ?_, ?_, ?_, ?_, ?_⟩ <;> (try simp_all) <;> (try grind)
-  | complete =>
-    obtain ⟨hi, ho, hr, hf, hj, hjr, hv⟩ := h
-    obtain ⟨ai, ao, ar, af, ac, aj⟩ := a
-    obtain ⟨bi, bo, br, bf, bc, bj⟩ := b
-    simp only at hi ho hr hf hj hjr hv
-    subst hi ho hr hf hj
-    cases aj with
-    | none => simp_all [step]; refine ⟨?_, ?_, ?_, ?_, ?_, ?_, ?_⟩ <;> (try simp_all)
-    | some v =>
-      cases hb : bad v <;> simp_all [step, Cfg.repaired] <;>
-        (refine ⟨?_, ?_, ?_, ?_, ?_, ?_, ?_⟩) <;> (try simp_all) <;> (try grind)
+    all_goals (
+      first
+      | (cases ar <;> simp_all [step] <;> (try (refine ⟨?_, ?_, ?_, ?_, ?_, ?_, ?_⟩)) <;> (try simp_all); done)
+      | (cases aj with
+         | nil => simp_all [step]; refine ⟨?_, ?_, ?_, ?_, ?_, ?_, ?_⟩ <;> simp_all
+         | cons v js =>
+           cases hb : beh v <;> simp_all [step, Cfg.proposed, N.succeed, N.fail] <;>
+             (try (refine ⟨?_, ?_, ?_, ?_, ?_, ?_, ?_⟩)) <;> (try simp_all) <;> (try grind)))
 
-theorem init_sim (bad : Nat → Bool) : Sim bad N.init N.init := by
+theorem init_sim (beh : Nat → Outcome) : Sim beh N.init N.init := by
   refine ⟨rfl, rfl, rfl, rfl, rfl, by simp [N.init], by simp [N.init]⟩
 
 /-- along the cached twin's run, no `submit` is issued in a state where it would be answered from
 the cache (a hit returns the outputs at once instead of a future — by design; see
 `submit_hit_settles` for what that hit is equivalent to) -/
-def noSubmitHit (bad : Nat → Bool) (a : N) : List Op → Bool
+def noSubmitHit (cfg : Cfg) (beh : Nat → Outcome) (a : N) : List Op → Bool
   | [] => true
-  | o :: os => (o != .submit || !a.hits) && noSubmitHit bad (step Cfg.repaired bad true a o).1 os
+  | o :: os => (o != .submit || !a.hits) && noSubmitHit cfg beh (step cfg beh true a o).1 os
 
-def NoSubmitHit (bad : Nat → Bool) (a : N) (ops : List Op) : Prop := noSubmitHit bad a ops = true
+def NoSubmitHit (cfg : Cfg) (beh : Nat → Outcome) (a : N) (ops : List Op) : Prop :=
+  noSubmitHit cfg beh a ops = true
 
-theorem NoSubmitHit.cons {bad a o os} (h : NoSubmitHit bad a (o :: os)) :
-    (o = .submit → a.hits = false) ∧ NoSubmitHit bad (step Cfg.repaired bad true a o).1 os := by
+theorem NoSubmitHit.cons {cfg beh a o os} (h : NoSubmitHit cfg beh a (o :: os)) :
+    (o = .submit → a.hits = false) ∧ NoSubmitHit cfg beh (step cfg beh true a o).1 os := by
   simp only [NoSubmitHit, noSubmitHit, Bool.and_eq_true, Bool.or_eq_true, bne_iff_ne, ne_eq,
     Bool.not_eq_true'] at h
   refine ⟨?_, h.2⟩
@@ -90,31 +80,120 @@ theorem NoSubmitHit.cons {bad a o os} (h : NoSubmitHit bad a (o :: os)) :
 
 /-- for EVERY such history the cached node and its uncached twin return the same things and end in
 the same visible state -/
-theorem runOps_sim (bad : Nat → Bool) (ops : List Op) (a b : N) (h : Sim bad a b)
-    (hok : NoSubmitHit bad a ops) :
-    (runOps Cfg.repaired bad true a ops).2 = (runOps Cfg.repaired bad false b ops).2 ∧
-    Sim bad (runOps Cfg.repaired bad true a ops).1 (runOps Cfg.repaired bad false b ops).1 := by
+theorem runOps_sim (beh : Nat → Outcome) (ops : List Op) (a b : N) (h : Sim beh a b)
+    (hok : NoSubmitHit Cfg.proposed beh a ops) :
+    (runOps Cfg.proposed beh true a ops).2 = (runOps Cfg.proposed beh false b ops).2 ∧
+    Sim beh (runOps Cfg.proposed beh true a ops).1 (runOps Cfg.proposed beh false b ops).1 := by
   induction ops generalizing a b with
   | nil => exact ⟨rfl, h⟩
   | cons o os ih =>
-    obtain ⟨hs, hr⟩ := step_sim bad a b o h hok.cons.1
+    obtain ⟨hs, hr⟩ := step_sim beh a b o h hok.cons.1
     obtain ⟨ih1, ih2⟩ := ih _ _ hs hok.cons.2
     simp only [runOps]
     exact ⟨by rw [hr, ih1], ih2⟩
 
 /-- a `submit` answered from the cache equals, on the uncached twin, the submission followed by the
-completion of that job: same outputs, same visible state -/
-theorem submit_hit_settles (bad : Nat → Bool) (a b : N) (h : Sim bad a b) (hhit : a.hits = true) :
-    let a' := (step Cfg.repaired bad true a .submit)
-    let b' := (step Cfg.repaired bad false (step Cfg.repaired bad false b .submit).1 .complete).1
-    Sim bad a'.1 b' ∧ a'.2 = .ret b'.out := by
+completion of that job (when nothing else is queued): same outputs, same visible state -/
+theorem submit_hit_settles (beh : Nat → Outcome) (a b : N) (h : Sim beh a b) (hhit : a.hits = true)
+    (hq : a.jobs = []) :
+    let a' := (step Cfg.proposed beh true a .submit)
+    let b' := (step Cfg.proposed beh false (step Cfg.proposed beh false b .submit).1 .complete).1
+    Sim beh a'.1 b' ∧ a'.2 = .ret b'.out := by
+  obtain ⟨hi, ho, hr, hf, hj, hnz, hv⟩ := h
+  obtain ⟨ai, ao, ar, af, ac, aj⟩ := a
+  obtain ⟨bi, bo, br, bf, bc, bj⟩ := b
+  simp only at hi ho hr hf hj hnz hv hq
+  subst hi ho hr hf hj hq
+  simp only [N.hits, N.ready] at hhit
+  cases ac with
+  | none => simp at hhit
+  | some c =>
+    obtain ⟨h1, h2, h3⟩ := hv c rfl
+    cases ar <;> cases af <;>
+      simp_all [step, runLike, Cfg.proposed, N.ready, N.succeed, N.fail] <;>
+      (try (refine ⟨?_, ?_, ?_, ?_, ?_, ?_, ?_⟩)) <;> (try simp_all) <;> (try grind)
+
+/-! ## the tree as it is (`Cfg.repaired`): histories without a manual reset / a lost job, functions
+that raise nothing but `Exception`s -/
+
+def Op.tame : Op → Bool
+  | .drop => false
+  | .resetRunning => false
+  | _ => true
+
+def Outcome.tame : Outcome → Bool
+  | .kbd => false
+  | .fatal => false
+  | _ => true
+
+structure SimR (beh : Nat → Outcome) (a b : N) : Prop where
+  inp : a.inp = b.inp
+  out : a.out = b.out
+  running : a.running = b.running
+  failed : a.failed = b.failed
+  jobs : a.jobs = b.jobs
+  jobRun : (a.running = false ∧ a.jobs = []) ∨ (a.running = true ∧ ∃ v, a.jobs = [v])
+  valid : ∀ c, a.cached = some c →
+    (a.running = true ∧ a.failed = false ∧ c ≠ 0 ∧ a.jobs = [c]) ∨
+    (a.running = false ∧ a.failed = false ∧ a.out = some c ∧ c ≠ 0 ∧ beh c = .ok)
+
+theorem runLike_simR (beh : Nat → Outcome) (hb : ∀ v, (beh v).tame = true) (a b : N) (e : Bool)
+    (h : SimR beh a b) (hmiss : e = true → a.hits = false) :
+    SimR beh (runLike Cfg.repaired beh true a e).1 (runLike Cfg.repaired beh false b e).1 ∧
+    (runLike Cfg.repaired beh true a e).2 = (runLike Cfg.repaired beh false b e).2 := by
   obtain ⟨hi, ho, hr, hf, hj, hjr, hv⟩ := h
   obtain ⟨ai, ao, ar, af, ac, aj⟩ := a
   obtain ⟨bi, bo, br, bf, bc, bj⟩ := b
   simp only at hi ho hr hf hj hjr hv
   subst hi ho hr hf hj
-  simp only [N.hits, N.ready] at hhit
-  cases ar <;> cases af <;> cases ac <;> simp_all [step, runLike, Cfg.repaired, N.ready] <;>
-    (try (refine ⟨?_, ?_, ?_, ?_, ?_, ?_, ?_⟩)) <;> (try simp_all) <;> (try grind)
+  simp only [N.hits, N.ready] at hmiss
+  have hbi := hb ai
+  by_cases hz : ai = 0 <;> cases ar <;> cases af <;> cases e <;> cases hbe : beh ai <;> cases ac <;>
+    simp_all [runLike, Cfg.repaired, N.ready, N.succeed, N.fail, Outcome.tame] <;>
+    (try split) <;>
+    (try (first | refine ⟨⟨?_, ?_, ?_, ?_, ?_, ?_, ?_⟩, ?_⟩ | refine ⟨?_, ?_, ?_, ?_, ?_, ?_, ?_⟩)) <;>
+    (try simp_all) <;> (try grind)
+
+theorem step_simR (beh : Nat → Outcome) (hb : ∀ v, (beh v).tame = true) (a b : N) (op : Op)
+    (hop : op.tame = true) (h : SimR beh a b) (hmiss : op = .submit → a.hits = false) :
+    SimR beh (step Cfg.repaired beh true a op).1 (step Cfg.repaired beh false b op).1 ∧
+    (step Cfg.repaired beh true a op).2 = (step Cfg.repaired beh false b op).2 := by
+  cases op with
+  | run => exact runLike_simR beh hb a b false h (by simp)
+  | submit => exact runLike_simR beh hb a b true h (fun _ => hmiss rfl)
+  | drop => simp [Op.tame] at hop
+  | resetRunning => simp [Op.tame] at hop
+  | _ =>
+    obtain ⟨hi, ho, hr, hf, hj, hjr, hv⟩ := h
+    obtain ⟨ai, ao, ar, af, ac, aj⟩ := a
+    obtain ⟨bi, bo, br, bf, bc, bj⟩ := b
+    simp only at hi ho hr hf hj hjr hv
+    subst hi ho hr hf hj
+    all_goals (
+      first
+      | (cases ar <;> simp_all [step] <;> (try (refine ⟨?_, ?_, ?_, ?_, ?_, ?_, ?_⟩)) <;> (try simp_all) <;>
+          (try grind); done)
+      | (cases aj with
+         | nil => simp_all [step]; refine ⟨?_, ?_, ?_, ?_, ?_, ?_, ?_⟩ <;> simp_all
+         | cons v js =>
+           have hbv := hb v
+           cases hbe : beh v <;> simp_all [step, Cfg.repaired, N.succeed, N.fail, Outcome.tame] <;>
+             (try (refine ⟨?_, ?_, ?_, ?_, ?_, ?_, ?_⟩)) <;> (try simp_all) <;> (try grind)))
+
+theorem init_simR (beh : Nat → Outcome) : SimR beh N.init N.init := by
+  refine ⟨rfl, rfl, rfl, rfl, rfl, by simp [N.init], by simp [N.init]⟩
+
+theorem runOps_simR (beh : Nat → Outcome) (hb : ∀ v, (beh v).tame = true) (ops : List Op)
+    (hops : ∀ o ∈ ops, o.tame = true) (a b : N) (h : SimR beh a b)
+    (hok : NoSubmitHit Cfg.repaired beh a ops) :
+    (runOps Cfg.repaired beh true a ops).2 = (runOps Cfg.repaired beh false b ops).2 ∧
+    SimR beh (runOps Cfg.repaired beh true a ops).1 (runOps Cfg.repaired beh false b ops).1 := by
+  induction ops generalizing a b with
+  | nil => exact ⟨rfl, h⟩
+  | cons o os ih =>
+    obtain ⟨hs, hr⟩ := step_simR beh hb a b o (hops o (by simp)) h hok.cons.1
+    obtain ⟨ih1, ih2⟩ := ih (fun o' ho' => hops o' (by simp [ho'])) _ _ hs hok.cons.2
+    simp only [runOps]
+    exact ⟨by rw [hr, ih1], ih2⟩
 
 end PwVerif.Cache
